@@ -4,7 +4,7 @@
    buffers; dec.div for every divisor length. *)
 From Coq Require Import ZArith List Bool Lia.
 From Dec Require Import Base.Words Base.WordsProofs L2.KernV L2.KernVProofs L2.Nat L2.NatProofs
-  L2.Mul L2.MulProofs L2.Div L2.DivProofs L2.DivRecLemmas.
+  L2.Mul L2.MulProofs L2.Div L2.DivProofs L2.DivRecLemmas gen.Consts.
 Import ListNotations.
 Open Scope Z_scope.
 
@@ -12,6 +12,18 @@ Open Scope Z_scope.
 
 Lemma qbound q Vh X Y : 0 <= q -> 0 < X -> X <= 2 * Vh -> q * Vh < Y * X -> q < 2 * Y.
 Proof. intros. nia. Qed.
+
+Lemma Bp_ge2 k : (1 <= k)%nat -> 2 <= Bp k.
+Proof.
+  intros H. pose proof (Bp_le 1 k H) as H1. change (Bp 1) with (B ^ 1) in H1. rewrite Z.pow_1_r in H1.
+  pose proof B_gt1. lia.
+Qed.
+
+Lemma prod_lt_3 q Vl X P D : 0 <= q < 2 * X -> 0 <= Vl < P -> 0 < X -> 2 <= D -> q * Vl < X * P * D.
+Proof.
+  intros Hq HV HX HD. assert (q * Vl <= q * P) by nia. assert (q * P < 2 * X * P) by nia.
+  assert (2 * (X * P) <= D * (X * P)) by (apply Z.mul_le_mono_nonneg_r; nia). lia.
+Qed.
 
 Lemma half_nat n : (2 <= n)%nat -> (1 <= n / 2 /\ 2 * (n / 2) <= n /\ n <= 2 * (n / 2) + 1)%nat.
 Proof.
@@ -42,32 +54,41 @@ Lemma step_core thrK junk v lo W hi qhat W' :
 Proof.
   intros n Bk s HthrK Hn Ov Htop Olo OW Ohi Llo Vhi BW HLu Oq OW' LW' EW BW'.
   destruct (half_nat n ltac:(lia)) as (HBk1 & HBk2 & HBk3). fold Bk in HBk1, HBk2, HBk3.
-  assert (Hs : (s <= n)%nat) by (unfold s; lia).
+  assert (Es : s = (Bk - 1)%nat) by reflexivity.
+  assert (Ln : length v = n) by reflexivity.
+  clearbody s. clearbody Bk. clearbody n.
+  assert (Hs : (s <= n)%nat) by (clear - Es HBk2; lia).
+  assert (Hns : (S Bk <= n - s)%nat) by (clear - Es HBk1 HBk2; lia).
+  assert (Hns2 : (Bk + (n - s) = S n)%nat) by (clear - Es HBk1 HBk2; lia).
+  assert (Hns3 : (1 <= n - Bk - s)%nat) by (clear - Es HBk1 HBk2; lia).
+  assert (Hns4 : (Bk + s + (n - Bk - s) = n)%nat) by (clear - Es HBk1 HBk2; lia).
+  assert (Hns5 : (s + (n - s - 1) = n - 1)%nat) by (clear - Es HBk1 HBk2; lia).
+  assert (Hns6 : (1 <= n - s)%nat) by (clear - Hns; lia).
+  assert (Hns7 : (s + (n - s) = n)%nat) by (clear - Hs; lia).
   set (Vh := val (skipn s v)) in *. set (Vl := val (firstn s v)).
   set (P := Bp s). set (q := val qhat).
   assert (OVl : words_ok (firstn s v) = true) by now apply words_ok_firstn.
   assert (OVh : words_ok (skipn s v) = true) by now apply words_ok_skipn.
-  assert (LVl : length (firstn s v) = s) by (rewrite firstn_length; fold n; lia).
-  assert (LVh : length (skipn s v) = (n - s)%nat) by apply skipn_length.
+  assert (LVl : length (firstn s v) = s) by (rewrite firstn_length, Ln; clear - Hs; lia).
+  assert (LVh : length (skipn s v) = (n - s)%nat) by (rewrite skipn_length, Ln; reflexivity).
   pose proof (val_bounds' _ OVl) as BVl. rewrite LVl in BVl. fold Vl P in BVl.
-  pose proof (val_split s v Hs) as Vv. fold Vl Vh P in Vv.
+  pose proof (val_split s v ltac:(rewrite Ln; exact Hs)) as Vv. fold Vl Vh P in Vv.
   assert (HP : 0 < P) by apply Bp_pos.
   (* 2·Vh >= B^(n-s) *)
   assert (HVh : Bp (n - s) <= 2 * Vh).
-  { apply (val_top_half (skipn s v) (n - s) LVh ltac:(lia) OVh).
-    rewrite nthw_skipn. replace (s + (n - s - 1))%nat with (n - 1)%nat by lia. assumption. }
+  { apply (val_top_half (skipn s v) (n - s) LVh Hns6 OVh).
+    rewrite nthw_skipn. rewrite Hns5. assumption. }
   pose proof (Bp_pos (n - s)) as Hpns.
-  assert (HVh0 : 0 < Vh) by lia.
+  assert (HVh0 : 0 < Vh) by (clear - HVh Hpns; lia).
   pose proof (val_nonneg qhat Oq) as Hq0. fold q in Hq0, EW.
   pose proof (val_nonneg W' OW') as HW'0.
   (* q̂ < 2·B^Bk *)
   assert (Hq2 : q < 2 * Bp Bk).
   { apply (qbound q Vh (Bp (n - s)) (Bp Bk) Hq0 Hpns HVh).
-    rewrite <- Bp_add. replace (Bk + (n - s))%nat with (S n) by (unfold s; lia).
-    clear - EW BW HW'0. lia. }
+    rewrite <- Bp_add. rewrite Hns2. clear - EW BW HW'0. lia. }
   (* q̂ <= 2·Vh *)
   assert (Hq3 : q <= 2 * Vh + 2).
-  { pose proof (Bp_le (S Bk) (n - s) ltac:(unfold s; lia)) as Hle. rewrite Bp_S in Hle.
+  { pose proof (Bp_le (S Bk) (n - s) Hns) as Hle. rewrite Bp_S in Hle.
     pose proof (Bp_pos Bk). pose proof B_gt1. clear - Hle Hq2 HVh H H0. nia. }
   set (U := val (lo ++ W ++ hi)).
   assert (EU : U = val W * P + val lo).
@@ -75,10 +96,12 @@ Proof.
   pose proof (val_bounds' lo Olo) as Blo. rewrite Llo in Blo. fold P in Blo.
   assert (Hup : U < (q + 1) * val v).
   { rewrite EU, Vv. replace (Vl + P * Vh) with (Vh * P + Vl) by ring.
-    apply (est_upper (val W) (val lo) Vh Vl P q (val W')); try assumption; lia. }
+    apply (est_upper (val W) (val lo) Vh Vl P q (val W')); try assumption.
+    clear - BVl; lia. }
   assert (Hlo : (q - 2) * val v <= U).
   { rewrite EU, Vv. replace (Vl + P * Vh) with (Vh * P + Vl) by ring.
-    apply (est_lower (val W) (val lo) Vh Vl P q (val W')); try assumption; lia. }
+    apply (est_lower (val W) (val lo) Vh Vl P q (val W')); try assumption.
+    clear - Blo; lia. }
   (* the product q̂·v[:s] *)
   set (qn := norm qhat).
   assert (Oqn : words_ok qn = true) by now apply words_ok_norm.
@@ -93,15 +116,10 @@ Proof.
   assert (Lqv : (length qv <= n)%nat).
   { apply norm_length_le; try assumption. rewrite Vqv.
     assert (Bp n = Bp Bk * P * Bp (n - Bk - s)) as ->.
-    { unfold P. rewrite <- !Bp_add. f_equal. f_equal. unfold s. lia. }
-    pose proof (Bp_pos Bk). pose proof (Bp_pos (n - Bk - s)).
-    assert (2 <= Bp (n - Bk - s) \/ Bp (n - Bk - s) = 1 /\ False \/ (s = 0)%nat /\ False) as Hc.
-    { left. pose proof (Bp_le 1 (n - Bk - s) ltac:(unfold s; lia)) as H1. change (Bp 1) with (B ^ 1) in H1.
-      rewrite Z.pow_1_r in H1. pose proof B_gt1. rewrite B_eq in *. lia. }
-    destruct Hc as [Hc|[[_ []]|[_ []]]].
-    assert (q * Vl < 2 * Bp Bk * P) by (clear - Hq0 Hq2 BVl HP H; nia).
-    assert (2 * (Bp Bk * P) <= Bp (n - Bk - s) * (Bp Bk * P)) by (apply Z.mul_le_mono_nonneg_r; nia).
-    clear - H1 H2. lia. }
+    { unfold P. rewrite <- !Bp_add. rewrite Hns4. reflexivity. }
+    pose proof (Bp_pos Bk) as HpBk.
+    pose proof (Bp_ge2 (n - Bk - s) Hns3) as HD.
+    apply prod_lt_3; [split|assumption|assumption|assumption]; assumption. }
   set (uu1 := lo ++ W' ++ hi).
   assert (Luu1 : length uu1 = length (lo ++ W ++ hi)) by (unfold uu1; rewrite !app_length, LW'; reflexivity).
   set (Lu := length (lo ++ W ++ hi)) in *.
@@ -117,8 +135,11 @@ Proof.
   assert (HUlt : U < Bp Lu).
   { unfold U, Lu. apply val_bounds'. apply words_ok_app; split; [assumption|]. apply words_ok_app; now split. }
   assert (Hbig : Bp (length v) <= B * (Bp s * val (skipn s v))).
-  { fold n Vh P. assert (Bp n = P * Bp (n - s)) as -> by (unfold P; rewrite <- Bp_add; f_equal; f_equal; lia).
-    pose proof B_gt1. clear - HP Hpns HVh H. nia. }
+  { rewrite Ln. fold Vh P. assert (Bp n = P * Bp (n - s)) as -> by (unfold P; rewrite <- Bp_add, Hns7; reflexivity).
+    pose proof B_gt1. assert (Bp (n - s) <= B * Vh) by (clear - Hpns HVh H; nia).
+    replace (B * (P * Vh)) with (P * (B * Vh)) by ring.
+    apply Z.mul_le_mono_nonneg_l; [clear - HP; lia | assumption]. }
+  rewrite <- Ln in Hs, HLu, Lqv.
   destruct (corr_spec v s U (length qn) (length qv) Lu (qn, qv, uu1) Ov Hs HLu Lqv HUlt Hbig Hinv)
     as (qh & qhv & uu & uu' & E2 & Ecmp & Esub & Oqh & Lqh & Ouu' & Luu' & Bqh & Vuu' & Buu').
   { unfold cq. cbn [fst]. rewrite Vqn. assumption. }
@@ -126,5 +147,630 @@ Proof.
   unfold cq in Bqh. cbn [fst] in Bqh. rewrite Vqn in Bqh.
   exists qh, qhv, uu, uu'. split; [assumption|]. split; [assumption|]. split; [assumption|].
   pose proof (val_nonneg qh Oqh) as Hqh0.
-  repeat split; try assumption; try lia.
+  repeat split; try assumption; try (clear - Hqh0 Bqh Hq2; lia); try (clear - Vuu'; lia);
+    clear - Buu'; lia.
 Qed.
+
+(* ---- the two shapes of the correction loop -------------------------------- *)
+
+Lemma blocks_style_eq v s (q qv u : list Z) :
+  (if nat_cmp qv (norm u) <=? 0 then (q, qv, u)
+   else let '(q', qv', u') := rec_adjust q qv u v s in
+        if nat_cmp qv' (norm u') <=? 0 then (q', qv', u') else rec_adjust q' qv' u' v s)
+  = adj1 v s (adj1 v s (q, qv, u)).
+Proof.
+  unfold adj1 at 2. rewrite leb0_ltb0. destruct (0 <? nat_cmp qv (norm u)) eqn:E; cbn [negb].
+  - destruct (rec_adjust q qv u v s) as [[q' qv'] u']. unfold adj1. rewrite leb0_ltb0.
+    destruct (0 <? nat_cmp qv' (norm u')); reflexivity.
+  - unfold adj1. rewrite E. reflexivity.
+Qed.
+
+Lemma rec_blocks_done rec thrK junk qlen Bk n v fuel j z un temps : (j <= Bk)%nat ->
+  rec_blocks rec thrK junk qlen Bk n v fuel j z un temps = Some (z, un, temps).
+Proof.
+  intros H. apply Nat.ltb_ge in H. destruct fuel; cbn [rec_blocks]; rewrite H; reflexivity.
+Qed.
+
+Lemma rec_blocks_S rec thrK junk qlen Bk n v f j z un temps : (Bk < j)%nat ->
+  rec_blocks rec thrK junk qlen Bk n v (S f) j z un temps =
+  let s := (Bk - 1)%nat in
+  let uu := skipn (j - Bk) un in
+  match rec temps (repeat 0 qlen) (win uu s (Bk + n - s)) (skipn s v) with
+  | None => None
+  | Some (qhat, w, temps) =>
+      let '(qh, qhv, uu2) :=
+        adj1 v s (adj1 v s (norm qhat, mul thrK junk (norm qhat) (firstn s v), splice uu s w)) in
+      if 0 <? nat_cmp qhv (norm uu2) then None
+      else let (uu3, _) := rec_subtract uu2 qhv in
+           rec_blocks rec thrK junk qlen Bk n v f (j - Bk) (decAddAt z qh (j - Bk))
+             (firstn (j - Bk) un ++ uu3) temps
+  end.
+Proof.
+  intros H. apply Nat.ltb_lt in H. cbn [rec_blocks]. rewrite H. cbv zeta.
+  destruct (rec temps (repeat 0 qlen) (win (skipn (j - Bk) un) (Bk - 1) (Bk + n - (Bk - 1))) (skipn (Bk - 1) v))
+    as [[[qhat w] t]|]; [|reflexivity].
+  rewrite blocks_style_eq. reflexivity.
+Qed.
+
+Lemma step_core' thrK junk v lo W hi qhat W' n Bk s :
+  length v = n -> Bk = (n / 2)%nat -> s = (Bk - 1)%nat ->
+  1 <= thrK -> (4 <= n)%nat -> words_ok v = true -> B <= 2 * nthw v (n - 1) ->
+  words_ok lo = true -> words_ok W = true -> words_ok hi = true ->
+  length lo = s -> val hi = 0 -> val W < Bp (S n) -> (n <= length (lo ++ W ++ hi))%nat ->
+  words_ok qhat = true -> words_ok W' = true -> length W' = length W ->
+  val W = val qhat * val (skipn s v) + val W' -> 0 <= val W' < val (skipn s v) ->
+  exists qh qhv uu uu',
+    adj1 v s (adj1 v s (norm qhat, mul thrK junk (norm qhat) (firstn s v), lo ++ W' ++ hi)) = (qh, qhv, uu) /\
+    (0 <? nat_cmp qhv (norm uu)) = false /\
+    rec_subtract uu qhv = (uu', 0) /\
+    words_ok qh = true /\ length qh = length (norm qhat) /\ 0 <= val qh < 2 * Bp Bk /\
+    words_ok uu' = true /\ length uu' = length (lo ++ W ++ hi) /\
+    val (lo ++ W ++ hi) = val qh * val v + val uu' /\ 0 <= val uu' < val v.
+Proof. intros Ln EBk Es. subst s Bk n. apply step_core. Qed.
+
+(* ---- the specification of a recursive call --------------------------------- *)
+
+(* what divRecursiveStep guarantees: for a zeroed quotient buffer z long enough
+   for the quotient, a divisor of 2..nmax words whose top word is >= B/2 *)
+Definition rec_ok (rec : list bool -> list Z -> list Z -> list Z -> option rstate) (Lt nmax : nat) : Prop :=
+  forall temps z u v,
+    length temps = Lt -> (2 <= length v <= nmax)%nat ->
+    z = repeat 0 (length z) -> words_ok u = true -> words_ok v = true ->
+    B <= 2 * nthw v (length v - 1) -> val u < val v * Bp (length z) ->
+    exists q u' temps', rec temps z u v = Some (q, u', temps') /\
+      length temps' = Lt /\ length q = length z /\ length u' = length u /\
+      words_ok q = true /\ words_ok u' = true /\
+      val u = val q * val v + val u' /\ 0 <= val u' < val v.
+
+Lemma rem_bound un j n Bk : words_ok un = true -> (j <= length un)%nat -> (j <= Bk)%nat ->
+  val (skipn j un) < Bp n -> val un < Bp (n + Bk).
+Proof.
+  intros Ou Hj HjB H. rewrite (val_split j un Hj).
+  pose proof (val_bounds' _ (words_ok_firstn j un Ou)) as Bf. rewrite firstn_length, Nat.min_l in Bf by assumption.
+  pose proof (Bp_pos j). pose proof (Bp_le (j + n) (n + Bk) ltac:(lia)) as Hle. rewrite Bp_add in Hle.
+  pose proof (val_nonneg _ (words_ok_skipn j un Ou)). nia.
+Qed.
+
+(* the window handed to the recursive call is below Vh·B^qlen *)
+Lemma window_fits W Vh X n Bk qlen : val W < Bp (S n) -> X <= 2 * Vh -> B * Bp (S n) <= X * Bp (S Bk) ->
+  (S Bk <= qlen)%nat -> 0 <= Vh -> val W < Vh * Bp qlen.
+Proof.
+  intros HW HX HB Hq HV. pose proof (Bp_le (S Bk) qlen Hq) as Hle. pose proof (Bp_pos (S Bk)).
+  pose proof (Bp_pos (S n)). pose proof B_gt1.
+  assert (X * Bp (S Bk) <= 2 * Vh * Bp (S Bk)) by (apply Z.mul_le_mono_nonneg_r; lia).
+  assert (Vh * Bp (S Bk) <= Vh * Bp qlen) by (apply Z.mul_le_mono_nonneg_l; lia).
+  nia.
+Qed.
+
+(* exactness of the accumulated quotient: z + q̂·B^i stays below B^len(z) *)
+Lemma quot_fits zv q Pi V U0 un un' Lzp : 0 < V -> 0 <= un' -> U0 = zv * V + un ->
+  un' = un - Pi * (q * V) -> U0 < V * Lzp -> zv + Pi * q < Lzp.
+Proof. intros. nia. Qed.
+
+(* ---- the loop over the blocks ------------------------------------------------ *)
+
+Lemma rec_blocks_spec rec thrK junk qlen Lt nmax v n Bk Lz U0 N :
+  length v = n -> Bk = (n / 2)%nat ->
+  1 <= thrK -> (4 <= n)%nat -> words_ok v = true -> B <= 2 * nthw v (n - 1) ->
+  rec_ok rec Lt nmax -> (n - Bk + 1 <= nmax)%nat -> (S Bk <= qlen)%nat ->
+  U0 < val v * Bp Lz ->
+  forall fuel j z un temps,
+    (j <= fuel)%nat -> length temps = Lt -> length z = Lz -> words_ok z = true ->
+    length un = N -> words_ok un = true -> (j + n <= N)%nat -> (j <= Lz)%nat ->
+    U0 = val z * val v + val un -> val (skipn j un) < Bp n ->
+    exists z' un' temps',
+      rec_blocks rec thrK junk qlen Bk n v fuel j z un temps = Some (z', un', temps') /\
+      length temps' = Lt /\ length z' = Lz /\ words_ok z' = true /\
+      length un' = N /\ words_ok un' = true /\
+      U0 = val z' * val v + val un' /\ val un' < Bp (n + Bk).
+Proof.
+  intros Ln EBk HthrK Hn Ov Htop Hrec Hnmax Hqlen HU0.
+  destruct (half_nat n ltac:(lia)) as (HBk1 & HBk2 & HBk3). rewrite <- EBk in HBk1, HBk2, HBk3.
+  set (s := (Bk - 1)%nat). assert (Es : s = (Bk - 1)%nat) by reflexivity. clearbody s.
+  assert (Hs : (s <= n)%nat) by (clear - Es HBk2; lia).
+  assert (Hns : (Bk + n - s = S n)%nat) by (clear - Es HBk1 HBk2; lia).
+  assert (Hns5 : (s + (n - s - 1) = n - 1)%nat) by (clear - Es HBk1 HBk2; lia).
+  assert (Hns6 : (1 <= n - s)%nat) by (clear - Es HBk1 HBk2; lia).
+  assert (OVh : words_ok (skipn s v) = true) by now apply words_ok_skipn.
+  assert (LVh : length (skipn s v) = (n - s)%nat) by (rewrite skipn_length, Ln; reflexivity).
+  assert (HVh : Bp (n - s) <= 2 * val (skipn s v)).
+  { apply (val_top_half (skipn s v) (n - s) LVh Hns6 OVh). rewrite nthw_skipn, Hns5. assumption. }
+  assert (HtopH : B <= 2 * nthw (skipn s v) (length (skipn s v) - 1)).
+  { rewrite LVh, nthw_skipn, Hns5. assumption. }
+  pose proof (val_nonneg _ OVh) as HVh0.
+  pose proof (val_bounds' v Ov) as BV. rewrite Ln in BV.
+  assert (HVpos : 0 < val v).
+  { pose proof (val_top_half v n Ln ltac:(clear - Hn; lia) Ov Htop). pose proof (Bp_pos n). lia. }
+  induction fuel as [|f IH]; intros j z un temps Hj Lt' Lz' Oz LN Oun HjN HjLz Hacc Hrem.
+  - rewrite rec_blocks_done by (clear - Hj; lia). exists z, un, temps.
+    repeat split; try assumption. apply (rem_bound un j n Bk); try assumption; clear - Hj HjN LN; lia.
+  - destruct (Nat.le_gt_cases j Bk) as [Hle|Hgt].
+    + rewrite rec_blocks_done by assumption. exists z, un, temps.
+      repeat split; try assumption. apply (rem_bound un j n Bk); try assumption. clear - HjN LN; lia.
+    + rewrite rec_blocks_S by assumption. cbv zeta. rewrite <- Es. rewrite Hns.
+      set (uu := skipn (j - Bk) un).
+      assert (Luu : length uu = (N - (j - Bk))%nat) by (unfold uu; rewrite skipn_length, LN; reflexivity).
+      assert (Ouu : words_ok uu = true) by (unfold uu; now apply words_ok_skipn).
+      assert (HsW : (s + S n <= length uu)%nat) by (rewrite Luu; clear - Es HBk1 HjN Hgt; lia).
+      set (W := win uu s (S n)).
+      assert (LW : length W = S n) by (unfold W; now apply length_win).
+      assert (OW : words_ok W = true) by (unfold W; now apply words_ok_win).
+      pose proof (val_bounds' W OW) as BW. rewrite LW in BW.
+      (* the recursive call *)
+      destruct (Hrec temps (repeat 0 qlen) W (skipn s v)) as (qhat & W' & temps1 & Erec & Lt1 & Lqh & LW' & Oqh & OW' & EW & BW').
+      { assumption. } { rewrite LVh. clear - Es HBk1 HBk2 Hnmax. lia. }
+      { now rewrite repeat_length. } { assumption. } { assumption. } { assumption. }
+      { rewrite repeat_length. apply (window_fits W _ (Bp (n - s)) n Bk qlen); try assumption; [lia|].
+        rewrite <- Bp_S, <- Bp_add. apply Bp_le. clear - Es HBk1 HBk2. lia. }
+      rewrite Erec.
+      (* uu = lo ++ W ++ hi *)
+      set (lo := firstn s uu). set (hi := skipn (s + S n) uu).
+      assert (Euu : uu = lo ++ W ++ hi) by apply split3.
+      assert (Esp : splice uu s W' = lo ++ W' ++ hi) by (unfold splice; rewrite LW', LW; reflexivity).
+      rewrite Esp.
+      assert (Vhi : val hi = 0).
+      { unfold hi, uu. rewrite skipn_skipn'. replace (j - Bk + (s + S n))%nat with (j + n)%nat by (clear - Es HBk1 Hgt; lia).
+        rewrite <- skipn_skipn'. apply val_zero_tail; [now apply words_ok_skipn | assumption]. }
+      destruct (step_core' thrK junk v lo W hi qhat W' n Bk s Ln EBk Es HthrK Hn Ov Htop)
+        as (qh & qhv & uu2 & uu3 & E2 & Ecmp & Esub & Oq & Lq & Bq & Ou3 & Lu3 & Vu3 & Bu3);
+        try assumption.
+      { unfold lo. now apply words_ok_firstn. } { unfold hi. now apply words_ok_skipn. }
+      { unfold lo. rewrite firstn_length. clear - HsW. lia. } { clear - BW; lia. }
+      { rewrite <- Euu, Luu. clear - HjN Hgt. lia. }
+      rewrite E2, Ecmp, Esub. rewrite <- Euu in Lu3, Vu3.
+      (* the new state *)
+      set (i := (j - Bk)%nat) in *.
+      assert (Hi : (i <= length un)%nat) by (rewrite LN; unfold i; clear - HjN; lia).
+      pose proof (val_split i un Hi) as Vun. fold uu in Vun.
+      assert (Lfi : length (firstn i un) = i) by (rewrite firstn_length; clear - Hi; lia).
+      set (un' := firstn i un ++ uu3).
+      assert (Vun' : val un' = val un - Bp i * (val qh * val v)).
+      { unfold un'. rewrite val_app', Lfi, Vun, Vu3. ring. }
+      assert (Oun' : words_ok un' = true).
+      { unfold un'. apply words_ok_app. split; [now apply words_ok_firstn | assumption]. }
+      pose proof (val_nonneg un' Oun') as Hun'0.
+      destruct (decAddAt_exact_gen z qh i Oz Oq) as (Lz1 & Oz1 & Vz1).
+      { rewrite Lz'. unfold i. clear - HjLz. lia. }
+      { rewrite Lz'. apply (quot_fits (val z) (val qh) (Bp i) (val v) U0 (val un) (val un') (Bp Lz)); assumption. }
+      apply (IH i (decAddAt z qh i) un' temps1); try assumption.
+      * unfold i. clear - Hj HBk1 Hgt. lia.
+      * now rewrite Lz1.
+      * unfold un'. rewrite app_length, Lfi, Lu3, Luu. unfold i. clear - HjN Hgt. lia.
+      * unfold i. clear - HjN. lia.
+      * unfold i. clear - HjLz. lia.
+      * rewrite Vz1, Vun', Hacc. ring.
+      * unfold un'. rewrite skipn_app_exact by (symmetry; exact Lfi). clear - Bu3 BV. lia.
+Qed.
+
+(* ---- divRecursiveStep -------------------------------------------------------- *)
+
+(* the part of divRecursiveStep after the last recursive call *)
+Definition final_tail (thrK junk : Z) (vn : list Z) (s : nat) (z rest : list Z) (temps : list bool)
+    (qhat0 w un : list Z) : option rstate :=
+  let un := firstn s un ++ w in
+  let qhat := norm qhat0 in
+  let qhatv := mul thrK junk qhat (firstn s vn) in
+  let '(qhat, qhatv, un) :=
+    if 0 <? nat_cmp qhatv (norm un) then rec_adjust qhat qhatv un vn s else (qhat, qhatv, un) in
+  let '(qhat, qhatv, un) :=
+    if 0 <? nat_cmp qhatv (norm un) then rec_adjust qhat qhatv un vn s else (qhat, qhatv, un) in
+  if 0 <? nat_cmp qhatv (norm un) then None
+  else let (un, c) := rec_subtract un qhatv in
+       if 0 <? c then None else Some (decAddAt z (norm qhat) 0, un ++ rest, temps).
+
+Lemma final_tail_eq thrK junk vn s z rest temps qhat0 w un :
+  final_tail thrK junk vn s z rest temps qhat0 w un =
+  let '(qh, qhv, un2) :=
+    adj1 vn s (adj1 vn s (norm qhat0, mul thrK junk (norm qhat0) (firstn s vn), firstn s un ++ w)) in
+  if 0 <? nat_cmp qhv (norm un2) then None
+  else let (un3, c) := rec_subtract un2 qhv in
+       if 0 <? c then None else Some (decAddAt z (norm qh) 0, un3 ++ rest, temps).
+Proof.
+  unfold final_tail. cbv zeta.
+  change (if 0 <? nat_cmp (mul thrK junk (norm qhat0) (firstn s vn)) (norm (firstn s un ++ w))
+          then rec_adjust (norm qhat0) (mul thrK junk (norm qhat0) (firstn s vn)) (firstn s un ++ w) vn s
+          else (norm qhat0, mul thrK junk (norm qhat0) (firstn s vn), firstn s un ++ w))
+    with (adj1 vn s (norm qhat0, mul thrK junk (norm qhat0) (firstn s vn), firstn s un ++ w)).
+  destruct (adj1 vn s (norm qhat0, mul thrK junk (norm qhat0) (firstn s vn), firstn s un ++ w)) as [[q1 qv1] u1].
+  reflexivity.
+Qed.
+
+Lemma divRecStep_S f thrD thrK junk depth temps z u v :
+  divRecStep (S f) thrD thrK junk depth temps z u v =
+  let un := norm u in
+  let vn := norm v in
+  let rest := skipn (length un) u in
+  if (length un =? 0)%nat then Some (clear z, u, temps)
+  else
+    let n := length vn in
+    if Z.of_nat n <? thrD then
+      match divBasic z un vn with
+      | None => None
+      | Some (z', u') => Some (z', u' ++ rest, temps)
+      end
+    else if (length un <? n)%nat then Some (z, u, temps)
+    else
+      let m := (length un - n)%nat in
+      let Bk := (n / 2)%nat in
+      if (length temps <=? depth)%nat then None
+      else
+        let qlen := if nth depth temps false then S Bk else n in
+        let temps := set_nth temps depth true in
+        match rec_blocks (divRecStep f thrD thrK junk (S depth)) thrK junk qlen Bk n vn
+                (length un) m z un temps with
+        | None => None
+        | Some (z, un, temps) =>
+            let s := (Bk - 1)%nat in
+            match divRecStep f thrD thrK junk (S depth) temps (repeat 0 qlen)
+                    (skipn s un) (skipn s vn) with
+            | None => None
+            | Some (qhat, w, temps) => final_tail thrK junk vn s z rest temps qhat w un
+            end
+        end.
+Proof. reflexivity. Qed.
+
+Lemma Bp_lt_inv a b : Bp a < Bp b -> (a < b)%nat.
+Proof.
+  intros H. destruct (Nat.le_gt_cases b a) as [Hle|]; [|assumption].
+  pose proof (Bp_le b a Hle). lia.
+Qed.
+
+Lemma length_set_nth {A} (l : list A) i a : (i < length l)%nat -> length (set_nth l i a) = length l.
+Proof.
+  intros H. unfold set_nth. rewrite app_length, firstn_length. cbn [length]. rewrite skipn_length. lia.
+Qed.
+
+Lemma pow2_half (x e : Z) : 4 <= x + 2 -> x <= 2 ^ e -> 1 <= e /\ 2 ^ e = 2 * 2 ^ (e - 1).
+Proof.
+  intros Hx H. assert (1 <= e).
+  { destruct (Z.le_gt_cases 1 e); [assumption|]. exfalso.
+    destruct (Z.eq_dec e 0) as [->|]; [change (2 ^ 0) with 1 in H; lia|].
+    rewrite Z.pow_neg_r in H by lia. lia. }
+  split; [assumption|]. replace e with (Z.succ (e - 1)) at 1 by lia. rewrite Z.pow_succ_r by lia. reflexivity.
+Qed.
+
+(* the quotient buffer is long enough for the digits the length of u implies *)
+Lemma quot_len un v Lz : words_ok un = true -> norm un = un -> un <> [] -> words_ok v = true ->
+  val un < val v * Bp Lz -> (length un - length v <= Lz)%nat.
+Proof.
+  intros Ou Nu Hne Ov H. pose proof (norm_nonempty_bounds un Ou Nu Hne) as Hlo.
+  pose proof (val_bounds' v Ov) as BV. pose proof (Bp_pos Lz).
+  assert (Bp (length un - 1) < Bp (length v + Lz)) by (rewrite Bp_add; nia).
+  apply Bp_lt_inv in H1. lia.
+Qed.
+
+Lemma skip_lt un v m : words_ok un = true -> val un < val v * Bp m -> val (skipn m un) < val v.
+Proof.
+  intros Ou H. rewrite val_skipn by assumption. apply Z.div_lt_upper_bound; [apply Bp_pos|]. lia.
+Qed.
+
+Theorem divRecStep_spec thrD thrK junk : 4 <= thrD -> 1 <= thrK ->
+  forall fuel depth temps z u v,
+    (length v < fuel)%nat ->
+    Z.of_nat (length v) - 2 <= 2 ^ (Z.of_nat (length temps) - Z.of_nat depth) ->
+    (2 <= length v)%nat -> z = repeat 0 (length z) ->
+    words_ok u = true -> words_ok v = true -> B <= 2 * nthw v (length v - 1) ->
+    val u < val v * Bp (length z) ->
+    exists q u' temps', divRecStep fuel thrD thrK junk depth temps z u v = Some (q, u', temps') /\
+      length temps' = length temps /\ length q = length z /\ length u' = length u /\
+      words_ok q = true /\ words_ok u' = true /\
+      val u = val q * val v + val u' /\ 0 <= val u' < val v.
+Proof.
+  intros HthrD HthrK. induction fuel as [|f IH]; intros depth temps z u v Hfuel Hdepth Hn2 Ez Ou Ov Htop Hfit;
+    [exfalso; clear - Hfuel; lia|].
+  rewrite divRecStep_S. cbv zeta.
+  assert (Nv : norm v = v).
+  { apply norm_of_top_pos; [clear - Hn2; lia|]. pose proof B_pos. clear - Htop H. lia. }
+  rewrite Nv.
+  set (n := length v) in *. set (Lz := length z) in *.
+  assert (Oz : words_ok z = true) by (rewrite Ez; apply words_ok_repeat0).
+  assert (Vz : val z = 0) by (rewrite Ez; apply val_repeat0).
+  pose proof (val_bounds' v Ov) as BV. fold n in BV.
+  assert (HVpos : 0 < val v).
+  { pose proof (val_top_half v n eq_refl ltac:(clear - Hn2; lia) Ov Htop). pose proof (Bp_pos n). lia. }
+  set (un := norm u).
+  assert (Oun : words_ok un = true) by now apply words_ok_norm.
+  assert (Nun : norm un = un) by apply norm_idem.
+  assert (Vun : val un = val u) by apply val_norm.
+  destruct (norm_skipn u) as [k Erest]. fold un in Erest.
+  pose proof (length_norm_le u) as Hlun. fold un in Hlun.
+  assert (Lk : (length un + k = length u)%nat).
+  { pose proof (f_equal (@length Z) Erest) as E. rewrite skipn_length, repeat_length in E. clear - E Hlun. lia. }
+  assert (Eu : un ++ repeat 0 k = u).
+  { rewrite <- Erest. unfold un at 1. rewrite norm_firstn. fold un. apply firstn_skipn. }
+  rewrite Erest.
+  assert (Happ : forall u', words_ok u' = true -> length u' = length un ->
+            length (u' ++ repeat 0 k) = length u /\ words_ok (u' ++ repeat 0 k) = true /\
+            val (u' ++ repeat 0 k) = val u').
+  { intros u' O' L'. repeat split.
+    - rewrite app_length, repeat_length, L'. exact Lk.
+    - apply words_ok_app. split; [assumption | apply words_ok_repeat0].
+    - rewrite val_app', val_repeat0. ring. }
+  destruct (Nat.eqb_spec (length un) 0) as [E0|E0].
+  { (* u = 0 *)
+    assert (un = []) by (destruct un; [reflexivity | discriminate]).
+    assert (val u = 0) by (rewrite <- Vun, H; reflexivity).
+    exists (clear z), u, temps. unfold clear. rewrite repeat_length, val_repeat0.
+    repeat split; try assumption; try apply words_ok_repeat0; try lia. }
+  assert (Hne : un <> []) by (intros E; rewrite E in E0; apply E0; reflexivity).
+  (* u shorter than v *)
+  assert (Hshort : (length un < n)%nat -> val u < val v).
+  { intros Hl. rewrite <- Vun. apply shorter_smaller; assumption. }
+  pose proof (val_nonneg u Ou) as Hu0.
+  rewrite <- Vun in Hfit.
+  pose proof (quot_len un v Lz Oun Nun Hne Ov Hfit) as HmLz. fold n in HmLz.
+  destruct (Z.ltb_spec (Z.of_nat n) thrD) as [Hsmall|Hbig].
+  { (* divBasic *)
+    destruct (Nat.le_gt_cases n (length un)) as [Hge|Hlt].
+    - destruct (divBasic_spec z un v) as (q' & u' & E & Lq' & Lu' & Ou' & Oq' & Sk & Acc & Bu'); try assumption.
+      { intros Em. apply skip_lt; [assumption|]. rewrite <- Em. exact Hfit. }
+      rewrite E. fold n Lz in Oq', Sk, Acc.
+      set (Lq := Nat.min (S (length un - n)) Lz) in *.
+      assert (Vsk : val (skipn Lq q') = 0).
+      { rewrite Sk. rewrite val_skipn by assumption. rewrite Vz. apply Z.div_0_l. pose proof (Bp_pos Lq). lia. }
+      assert (Osk : words_ok (skipn Lq q') = true) by (rewrite Sk; now apply words_ok_skipn).
+      assert (Oq'' : words_ok q' = true).
+      { rewrite <- (firstn_skipn Lq q'). apply words_ok_app. now split. }
+      assert (Vq' : val q' = val (firstn Lq q')).
+      { rewrite (val_firstn_skipn Lq q') at 1. rewrite Vsk. ring. }
+      destruct (Happ u' Ou' Lu') as (H1 & H2 & H3).
+      exists q', (u' ++ repeat 0 k), temps. rewrite H3, Vq', <- Vun.
+      repeat split; try assumption; try reflexivity; try lia.
+    - assert (Ed : divBasic z un v = Some (z, un)).
+      { unfold divBasic. fold n. destruct (Nat.eqb_spec n 0); [clear - e Hn2; lia|].
+        destruct (Nat.ltb_spec (length un) n); [reflexivity | clear - H Hlt; lia]. }
+      rewrite Ed, Eu. exists z, u, temps. rewrite Vz. specialize (Hshort Hlt).
+      repeat split; try assumption; try reflexivity; try lia. }
+  destruct (Nat.ltb_spec (length un) n) as [Hlt|Hge].
+  { exists z, u, temps. rewrite Vz. specialize (Hshort Hlt).
+    repeat split; try assumption; try reflexivity; try lia. }
+  (* the recursive case *)
+  assert (Hn4 : (4 <= n)%nat) by (clear - HthrD Hbig; lia).
+  destruct (half_nat n ltac:(clear - Hn4; lia)) as (HBk1 & HBk2 & HBk3).
+  set (Bk := (n / 2)%nat) in *. assert (EBk : Bk = (n / 2)%nat) by reflexivity. clearbody Bk.
+  set (s := (Bk - 1)%nat). assert (Es : s = (Bk - 1)%nat) by reflexivity. clearbody s.
+  set (Lt := length temps) in *.
+  destruct (pow2_half (Z.of_nat n - 2) (Z.of_nat Lt - Z.of_nat depth) ltac:(clear - Hn4; lia) Hdepth) as (He1 & He2).
+  destruct (Nat.leb_spec Lt depth) as [Hbad|Hdl]; [exfalso; clear - Hbad He1; lia|].
+  set (qlen := if nth depth temps false then S Bk else n).
+  assert (Hqlen : (S Bk <= qlen)%nat) by (unfold qlen; destruct (nth depth temps false); clear - HBk1 HBk2; lia).
+  clearbody qlen.
+  set (temps2 := set_nth temps depth true).
+  assert (Lt2 : length temps2 = Lt) by (unfold temps2; now apply length_set_nth).
+  clearbody temps2.
+  set (nmax := (n - Bk + 1)%nat).
+  assert (Hrec : rec_ok (divRecStep f thrD thrK junk (S depth)) Lt nmax).
+  { intros t' z' u' v' HLt' Hlen' Hz' Ou' Ov' Htop' Hfit'.
+    destruct (IH (S depth) t' z' u' v') as (q1 & u1 & t1 & E1 & R1); try assumption.
+    - unfold nmax in Hlen'. clear - Hlen' Hfuel HBk1 HBk2 HBk3 Hn4. lia.
+    - rewrite HLt'. replace (Z.of_nat Lt - Z.of_nat (S depth)) with (Z.of_nat Lt - Z.of_nat depth - 1) by lia.
+      unfold nmax in Hlen'. clear - Hlen' He2 Hdepth HBk1 HBk2 HBk3. lia.
+    - clear - Hlen'; lia.
+    - exists q1, u1, t1. rewrite HLt' in R1. split; assumption. }
+  assert (Hm : (length un - n + n = length un)%nat) by (clear - Hge; lia).
+  destruct (rec_blocks_spec (divRecStep f thrD thrK junk (S depth)) thrK junk qlen Lt nmax v n Bk Lz (val un)
+              (length un) eq_refl EBk HthrK Hn4 Ov Htop Hrec ltac:(unfold nmax; lia) Hqlen Hfit
+              (length un) (length un - n)%nat z un temps2)
+    as (z1 & un1 & temps3 & Eb & Lt3 & Lz1 & Oz1 & Lun1 & Oun1 & Acc1 & Bun1); try assumption; try reflexivity.
+  { clear; lia. } { clear - Hm; lia. } { rewrite Vz. ring. }
+  { pose proof (val_bounds' _ (words_ok_skipn (length un - n) un Oun)) as Hb.
+    rewrite skipn_length in Hb. replace (length un - (length un - n))%nat with n in Hb by (clear - Hge; lia).
+    clear - Hb; lia. }
+  rewrite Eb.
+  (* the final step *)
+  assert (Hs : (s <= n)%nat) by (clear - Es HBk2; lia).
+  assert (Hns5 : (s + (n - s - 1) = n - 1)%nat) by (clear - Es HBk1 HBk2; lia).
+  assert (Hns6 : (1 <= n - s)%nat) by (clear - Es HBk1 HBk2; lia).
+  assert (OVh : words_ok (skipn s v) = true) by now apply words_ok_skipn.
+  assert (LVh : length (skipn s v) = (n - s)%nat) by (rewrite skipn_length; reflexivity).
+  assert (HVh : Bp (n - s) <= 2 * val (skipn s v)).
+  { apply (val_top_half (skipn s v) (n - s) LVh Hns6 OVh). rewrite nthw_skipn, Hns5. assumption. }
+  pose proof (val_nonneg _ OVh) as HVh0.
+  set (W := skipn s un1).
+  assert (OW : words_ok W = true) by (unfold W; now apply words_ok_skipn).
+  assert (HsN : (s <= length un1)%nat) by (rewrite Lun1; clear - Hs Hge; lia).
+  assert (BW : val W < Bp (S n)).
+  { unfold W. rewrite val_skipn by assumption. apply Z.div_lt_upper_bound; [apply Bp_pos|].
+    rewrite <- Bp_add. replace (s + S n)%nat with (n + Bk)%nat by (clear - Es HBk1; lia). assumption. }
+  destruct (Hrec temps3 (repeat 0 qlen) W (skipn s v)) as (qhat & W' & temps4 & Erec & Lt4 & Lqh & LW' & Oqh & OW' & EW & BW').
+  { assumption. } { rewrite LVh. unfold nmax. clear - Es HBk1 HBk2. lia. }
+  { now rewrite repeat_length. } { assumption. } { assumption. }
+  { rewrite LVh, nthw_skipn, Hns5. assumption. }
+  { rewrite repeat_length. apply (window_fits W _ (Bp (n - s)) n Bk qlen); try assumption.
+    rewrite <- Bp_S, <- Bp_add. apply Bp_le. clear - Es HBk1 HBk2. lia. }
+  rewrite Erec. rewrite final_tail_eq.
+  set (lo := firstn s un1).
+  assert (Eun1 : lo ++ W = un1) by apply firstn_skipn.
+  destruct (step_core' thrK junk v lo W [] qhat W' n Bk s eq_refl EBk Es HthrK Hn4 Ov Htop)
+    as (qh & qhv & uu2 & uu3 & E2 & Ecmp & Esub & Oq & Lq & Bq & Ou3 & Lu3 & Vu3 & Bu3);
+    try assumption; try reflexivity.
+  { unfold lo. now apply words_ok_firstn. }
+  { unfold lo. rewrite firstn_length. clear - HsN. lia. }
+  { rewrite app_nil_r, Eun1, Lun1. exact Hge. }
+  rewrite !app_nil_r in *. rewrite Eun1 in Lu3, Vu3.
+  rewrite E2, Ecmp, Esub. change (0 <? 0) with false. cbv iota.
+  assert (Onq : words_ok (norm qh) = true) by now apply words_ok_norm.
+  destruct (decAddAt_exact_gen z1 (norm qh) 0 Oz1 Onq ltac:(clear; lia)) as (Lz2 & Oz2 & Vz2).
+  { rewrite Lz1, val_norm. change (Bp 0) with 1.
+    apply (quot_fits (val z1) (val qh) 1 (val v) (val un) (val un1) (val uu3) (Bp Lz)); try assumption.
+    - clear - Bu3; lia.
+    - rewrite Vu3. ring. }
+  rewrite val_norm in Vz2. change (Bp 0) with 1 in Vz2.
+  destruct (Happ uu3 Ou3 ltac:(rewrite Lu3; exact Lun1)) as (H1 & H2 & H3).
+  exists (decAddAt z1 (norm qh) 0), (uu3 ++ repeat 0 k), temps4.
+  rewrite H3, Vz2, <- Vun, Acc1, Vu3.
+  repeat split; try assumption; try (clear - Bu3; lia); try (rewrite Lz2; exact Lz1); ring.
+Qed.
+
+(* ---- divRecursive -------------------------------------------------------------- *)
+
+Lemma bitlen_bound n : (1 <= n)%nat -> Z.of_nat n < 2 ^ Z.of_nat (bitlen n).
+Proof.
+  intros H. unfold bitlen. pose proof (Z.log2_nonneg (Z.of_nat n)).
+  rewrite Z2Nat.id by lia. pose proof (Z.log2_spec (Z.of_nat n) ltac:(lia)) as [_ Hs].
+  replace (Z.log2 (Z.of_nat n) + 1) with (Z.succ (Z.log2 (Z.of_nat n))) by lia. exact Hs.
+Qed.
+
+(* z.divRecursive(u, v): the recursion fuel S(len v) of the model and the
+   2·bits.Len(len v) scratch slots are enough; no panic; u0 = q·v + r, 0 <= r < v *)
+Theorem divRecursive_spec thrD thrK junk q u v :
+  4 <= thrD -> 1 <= thrK ->
+  (2 <= length v)%nat -> words_ok u = true -> words_ok v = true ->
+  B <= 2 * nthw v (length v - 1) -> val u < val v * Bp (length q) ->
+  exists q' u', divRecursive thrD thrK junk q u v = Some (q', u') /\
+    length q' = length q /\ length u' = length u /\ words_ok q' = true /\ words_ok u' = true /\
+    val u = val q' * val v + val u' /\ 0 <= val u' < val v.
+Proof.
+  intros HthrD HthrK Hn Ou Ov Htop Hfit. unfold divRecursive.
+  destruct (Nat.eqb_spec (length v) 0) as [E0|_]; [exfalso; clear - E0 Hn; lia|].
+  set (recDepth := (2 * bitlen (length v))%nat).
+  destruct (divRecStep_spec thrD thrK junk HthrD HthrK (S (length v)) 0 (repeat false recDepth) (clear q) u v)
+    as (q' & u' & t' & E & _ & Lq & R); try assumption.
+  - clear; lia.
+  - rewrite repeat_length. unfold recDepth. pose proof (bitlen_bound (length v) ltac:(clear - Hn; lia)) as Hb.
+    assert (2 ^ Z.of_nat (bitlen (length v)) <= 2 ^ (Z.of_nat (2 * bitlen (length v)) - Z.of_nat 0)).
+    { apply Z.pow_le_mono_r; lia. }
+    lia.
+  - unfold clear. now rewrite repeat_length.
+  - unfold clear. rewrite repeat_length. assumption.
+  - rewrite E. exists q', u'. unfold clear in Lq. rewrite repeat_length in Lq.
+    split; [reflexivity|]. split; [assumption|]. exact R.
+Qed.
+
+(* the same under the hypotheses of divBasic_spec (C06_divBasic) *)
+Corollary divRecursive_spec' thrD thrK junk q u v :
+  let n := length v in
+  let m := (length u - n)%nat in
+  4 <= thrD -> 1 <= thrK ->
+  (2 <= n)%nat -> (n <= length u)%nat -> words_ok u = true -> words_ok v = true ->
+  B <= 2 * nthw v (n - 1) -> (m <= length q)%nat -> (length q = m -> val (skipn m u) < val v) ->
+  exists q' u', divRecursive thrD thrK junk q u v = Some (q', u') /\
+    length q' = length q /\ length u' = length u /\ words_ok q' = true /\ words_ok u' = true /\
+    val u = val q' * val v + val u' /\ 0 <= val u' < val v.
+Proof.
+  intros n m HthrD HthrK Hn Hlu Ou Ov Htop Hlq Hq0.
+  apply divRecursive_spec; try assumption. fold n.
+  pose proof (val_top_half v n eq_refl ltac:(lia) Ov Htop) as Hhalf.
+  pose proof (val_bounds' u Ou) as Bu. pose proof (Bp_pos n). pose proof B_gt1.
+  destruct (Nat.eq_dec (length q) m) as [Em|Nm].
+  - specialize (Hq0 Em). rewrite Em. rewrite (val_split m u) by (unfold m; lia).
+    pose proof (val_bounds' _ (words_ok_firstn m u Ou)) as Bf.
+    rewrite firstn_length, Nat.min_l in Bf by (unfold m; lia).
+    pose proof (val_nonneg _ (words_ok_skipn m u Ou)). nia.
+  - pose proof (Bp_le (S m) (length q) ltac:(lia)) as Hle. rewrite Bp_S in Hle.
+    assert (Bp (length u) = Bp n * Bp m) by (rewrite <- Bp_add; f_equal; f_equal; unfold m; lia).
+    pose proof (Bp_pos m).
+    assert (val u < 2 * val v * Bp m) by nia.
+    assert (2 * val v * Bp m <= val v * (B * Bp m)) by nia.
+    assert (val v * (B * Bp m) <= val v * Bp (length q)) by (apply Z.mul_le_mono_nonneg_l; lia).
+    lia.
+Qed.
+
+(* ---- divLarge and dec.div for every divisor length ----------------------------- *)
+
+Theorem divLarge_spec thrD thrK junk uIn vIn :
+  4 <= thrD -> 1 <= thrK ->
+  words_ok uIn = true -> words_ok vIn = true -> norm vIn = vIn ->
+  (2 <= length vIn)%nat -> (length vIn <= length uIn)%nat ->
+  divLarge thrD thrK junk uIn vIn = Some (dec_quo uIn vIn, dec_rem uIn vIn).
+Proof.
+  intros HthrD HthrK Ou Ov Nv Hn Hmn.
+  destruct (Z.ltb_spec (Z.of_nat (length vIn)) thrD) as [Hlt|Hge];
+    [apply divLarge_basic_spec; assumption|].
+  unfold divLarge.
+  set (n := length vIn) in *. set (m := length uIn) in *.
+  assert (Hne : vIn <> []) by (intros ->; cbn in Hn; lia).
+  destruct (divLarge_norm_spec vIn Ov Nv Hne) as (Hd & Lv & Ovn & Vv & Hc & Hnorm). fold n in Hd, Lv, Ovn, Vv, Hc, Hnorm.
+  set (d := B / (nthw vIn (n - 1) + 1)) in *.
+  set (v := fst (mulAdd10VWW_v vIn d 0)) in *.
+  destruct (mulAdd10VWW_v uIn d 0) as [w c] eqn:Eu.
+  destruct (mulAdd10VWW_v_spec uIn d 0 w c Ou ltac:(lia) ltac:(lia) Eu) as (Lw & Ow & Bc & Vw).
+  fold m in Lw, Vw.
+  set (u := w ++ [c]).
+  assert (Lu : length u = S m) by (unfold u; len).
+  assert (Ouu : words_ok u = true).
+  { unfold u. apply words_ok_app. split; [assumption|]. apply words_ok_cons. split; [assumption | reflexivity]. }
+  assert (Vu : val u = val uIn * d) by (unfold u; rewrite val_app', val_single, Lw; lia).
+  destruct (Z.ltb_spec (Z.of_nat n) thrD); [lia|].
+  set (q := mk junk (m - n + 1)).
+  assert (Lq : length q = (m - n + 1)%nat) by (unfold q, mk; apply repeat_length).
+  pose proof (norm_nonempty_bounds vIn Ov Nv Hne) as HvLo. fold n in HvLo.
+  pose proof (val_bounds' uIn Ou) as BuIn. fold m in BuIn.
+  pose proof (Bp_pos (n - 1)) as Hp1.
+  assert (HVpos : 0 < val vIn) by lia.
+  (* the quotient fits q *)
+  assert (Hfit : val u < val v * Bp (length q)).
+  { rewrite Lq, Vu, Vv.
+    assert (Bp m = Bp (m - n + 1) * Bp (n - 1)) by (rewrite <- Bp_add; f_equal; f_equal; lia).
+    pose proof (Bp_pos (m - n + 1)).
+    assert (val uIn * d < Bp m * d) by nia.
+    assert (Bp (n - 1) * d <= val vIn * d) by nia.
+    assert (Bp (m - n + 1) * (Bp (n - 1) * d) <= Bp (m - n + 1) * (val vIn * d))
+      by (apply Z.mul_le_mono_nonneg_l; lia).
+    replace (Bp m * d) with (Bp (m - n + 1) * (Bp (n - 1) * d)) in * by (rewrite H0; ring).
+    lia. }
+  destruct (divRecursive_spec thrD thrK junk q u v HthrD HthrK) as (q' & u' & E & Lq' & Lu' & Oq' & Ou' & Acc & Bu');
+    try assumption.
+  { lia. } { rewrite Lv. assumption. }
+  rewrite E.
+  destruct (nat_divW_val u' d Ou' ltac:(lia)) as (r & r2 & Er & Or & Vr & _). rewrite Er.
+  (* u0·d = q·(v0·d) + u'  ==>  u' = d·(u0 - q·v0) *)
+  rewrite Vu, Vv in Acc. rewrite Vv in Bu'.
+  set (R := val uIn - val q' * val vIn).
+  assert (Eu' : val u' = d * R) by (unfold R; lia).
+  assert (BR : 0 <= R < val vIn) by nia.
+  destruct (divmod_unique (val uIn) (val vIn) (val q') R) as [Eq Em]; [lia | unfold R; lia |].
+  assert (Vr' : val r = R).
+  { rewrite Vr, Eu'. rewrite Z.mul_comm. apply Z.div_mul. lia. }
+  unfold dec_quo, dec_rem. rewrite Eq, Em. f_equal. f_equal; now apply norm_eq_of_Z.
+Qed.
+
+(* dec.div: quotient and remainder are the value-level ones for every divisor
+   length, every divRecursiveThreshold >= 4 and decKaratsubaThreshold >= 1; the
+   only panic is the division by zero *)
+Theorem div_spec thrD thrK junk u v :
+  4 <= thrD -> 1 <= thrK ->
+  words_ok u = true -> words_ok v = true -> norm u = u -> norm v = v ->
+  div thrD thrK junk u v =
+    if (length v =? 0)%nat then None else Some (dec_quo u v, dec_rem u v).
+Proof.
+  intros HthrD HthrK Ou Ov Nu Nv. unfold div.
+  destruct (Nat.eqb_spec (length v) 0) as [E0|E0]; [reflexivity|].
+  assert (Hne : v <> []) by (intros ->; cbn in E0; lia).
+  pose proof (norm_nonempty_bounds v Ov Nv Hne) as HvLo. pose proof (Bp_pos (length v - 1)).
+  pose proof (val_nonneg u Ou) as Hu0.
+  rewrite (nat_cmp_spec u v Ou Ov Nu Nv). unfold zsgn, dec_quo, dec_rem.
+  destruct (Z.ltb_spec (val u) (val v)) as [Hlt|Hge].
+  - cbn [Z.ltb]. change (-1 <? 0) with true. cbv iota.
+    rewrite Z.div_small, Z.mod_small by lia. rewrite of_Z_val, Nu by assumption. reflexivity.
+  - assert (Hs : (if val v <? val u then 1 else 0) <? 0 = false) by (destruct (val v <? val u); reflexivity).
+    rewrite Hs.
+    destruct (Nat.eqb_spec (length v) 1) as [E1|E1].
+    + destruct v as [|y [|? ?]]; try discriminate. cbn [hd]. rewrite val_single in *.
+      apply words_ok_cons in Ov as [Hy _]. change (Bp (length [y] - 1)) with 1 in HvLo.
+      rewrite (nat_divW_spec u y Ou Nu Hy). destruct (Z.eqb_spec y 0); [lia|].
+      rewrite setWord_of_Z; [reflexivity|]. pose proof (Z.mod_pos_bound (val u) y ltac:(lia)). lia.
+    + assert (Hlen : (length v <= length u)%nat).
+      { destruct (Nat.le_gt_cases (length v) (length u)); [assumption|].
+        pose proof (shorter_smaller u v Ou Ov Nv ltac:(lia)). lia. }
+      apply divLarge_spec; try assumption; lia.
+Qed.
+
+(* the result of dec.div does not depend on the tuning at all *)
+Corollary div_threshold_independent_full d1 k1 j1 d2 k2 j2 u v :
+  4 <= d1 -> 1 <= k1 -> 4 <= d2 -> 1 <= k2 ->
+  words_ok u = true -> words_ok v = true -> norm u = u -> norm v = v ->
+  div d1 k1 j1 u v = div d2 k2 j2 u v.
+Proof. intros. rewrite !div_spec by assumption. reflexivity. Qed.
+
+(* ---- the shipped threshold ------------------------------------------------------ *)
+
+(* divRecursiveThreshold as extracted from the Go source satisfies the hypothesis *)
+Lemma chk_divRecursiveThreshold : 4 <= c_divRecursiveThreshold.
+Proof. unfold c_divRecursiveThreshold. lia. Qed.
+
+Theorem div_shipped_spec thrK junk u v :
+  1 <= thrK -> words_ok u = true -> words_ok v = true -> norm u = u -> norm v = v ->
+  div c_divRecursiveThreshold thrK junk u v =
+    if (length v =? 0)%nat then None else Some (dec_quo u v, dec_rem u v).
+Proof. intros. apply div_spec; try assumption. exact chk_divRecursiveThreshold. Qed.
